@@ -83,6 +83,18 @@ hx(const void *p, size_t n)
 	return o;
 }
 
+// error name usable inside a violation key
+static const char *
+ename(int rv)
+{
+	static _Thread_local char b[48];
+	snprintf(b, sizeof(b), "%s", nng_strerror(rv));
+	for (char *p = b; *p; p++) {
+		if (*p == ' ') *p = '-';
+	}
+	return b;
+}
+
 static bool
 t_prefix(const topic_t *t, const uint8_t *b, size_t len)
 {
@@ -324,7 +336,7 @@ det_mismatch(det_t *d, int si, const char *op, int rv, nng_msg *got, int want)
 		memcpy(g.b, nng_msg_body(got), g.len);
 	}
 	if (rv != 0 && rv != NNG_EAGAIN) {
-		snprintf(key, sizeof(key), "C05/recv-error/%s", nng_strerror(rv));
+		snprintf(key, sizeof(key), "C05/recv-error/%s", ename(rv));
 		det_violation(d, key, "%s on slot %d returned %s (model: %s)", op, si,
 		    nng_strerror(rv), want < 0 ? "EAGAIN" : "message");
 		return;
@@ -465,17 +477,33 @@ m_arrive(det_t *d, int id)
 }
 
 // receive on the linearisation aio with a time-out
+static long premature_timeouts;
+
 static int
 z_recv(det_t *d, const subj *j, int ms, nng_msg **mp)
 {
-	nng_aio_set_timeout(d->zaio, ms);
-	sj_recv_aio(j, d->zaio);
-	nng_aio_wait(d->zaio);
-	int rv = (int) nng_aio_result(d->zaio);
-	if (rv == 0) {
-		*mp = nng_aio_get_msg(d->zaio);
+	for (;;) {
+		uint64_t t0 = vf_now_ns();
+		nng_aio_set_timeout(d->zaio, ms);
+		sj_recv_aio(j, d->zaio);
+		nng_aio_wait(d->zaio);
+		int rv = (int) nng_aio_result(d->zaio);
+		if (rv == 0) {
+			*mp = nng_aio_get_msg(d->zaio);
+		}
+		uint64_t el = (vf_now_ns() - t0) / 1000000;
+		if (rv == NNG_ETIMEDOUT && el + 1 < (uint64_t) ms / 2) {
+			// The operation was timed out long before its deadline.
+			// That is a defect of the aio expiry machinery (property
+			// C02), not of PUB/SUB: count it and ask again.
+			if (premature_timeouts++ == 0) {
+				fprintf(stderr, "note: receive with %d ms time-out returned ETIMEDOUT after %llu ms (case %ld)\n",
+				    ms, (unsigned long long) el, vf_case_index());
+			}
+			continue;
+		}
+		return rv;
 	}
-	return rv;
 }
 
 static int
@@ -502,7 +530,7 @@ det_publish(det_t *d, int pi, const body_t *b)
 	hist(d, "pub%d %s", pi, hx(b->b, b->len));
 	if ((rv = raw_publish(d->pub[pi], b->b, b->len, flags)) != 0) {
 		char key[96];
-		snprintf(key, sizeof(key), "C05/pub-send/%s%s", nng_strerror(rv),
+		snprintf(key, sizeof(key), "C05/pub-send/%s%s", ename(rv),
 		    flags ? "-nonblock" : "");
 		det_violation(d, key, "nng_sendmsg on idle PUB returned %s",
 		    nng_strerror(rv));
@@ -787,7 +815,7 @@ g_body(det_t *d, body_t *b)
 }
 
 // connect publisher pi and make sure its pipe is live on both sides
-static void
+static bool
 det_connect(det_t *d, int pi)
 {
 	subj    j;
@@ -805,23 +833,39 @@ det_connect(det_t *d, int pi)
 		j.is_sock = true;
 		j.s       = d->sub;
 	}
-	for (int a = 0; a < 400 && !up; a++) {
+	uint64_t t0 = vf_now_ns();
+	long     probes = 0;
+	while (!up && vf_now_ns() - t0 < 20000000000ULL) {
 		nng_msg *m = NULL;
 		if (raw_publish(d->pub[pi], probe, 3, 0) != 0) vf_harness_fail("probe send");
+		probes++;
 		if (z_recv(d, &j, 25, &m) == 0) {
 			nng_msg_free(m);
 			up = true;
 		}
 	}
-	if (!up) vf_harness_fail("publisher %d never reached the subscriber", pi);
+	if (!up) {
+		// both sockets report a pipe, yet nothing published during 20 s
+		// reached a context subscribed to the empty topic
+		det_violation(d, "C05/iff/not-delivered-to-empty-subscription",
+		    "connected over %s (both sides report a pipe) but none of %ld messages published during 20 s reached the %s subscribed to \"\"",
+		    vf_tran_names[d->tran], probes, d->sentinel ? "context" : "socket");
+		return false;
+	}
 	if (raw_publish(d->pub[pi], fence, 3, 0) != 0) vf_harness_fail("fence send");
 	for (;;) {
 		nng_msg *m = NULL;
-		if (z_recv(d, &j, 10000, &m) != 0) vf_harness_fail("fence lost");
+		if (z_recv(d, &j, 10000, &m) != 0) {
+			det_violation(d, "C05/iff/not-delivered-to-empty-subscription",
+			    "a message published on a live %s pipe did not reach the subscription \"\" within 10 s",
+			    vf_tran_names[d->tran]);
+			return false;
+		}
 		bool f = nng_msg_len(m) == 3 && memcmp(nng_msg_body(m), fence, 3) == 0;
 		nng_msg_free(m);
 		if (f) break;
 	}
+	return true;
 }
 
 static void
@@ -855,8 +899,10 @@ det_case(long idx)
 	} else {
 		if (nng_sub0_socket_subscribe(d->sub, "", 0) != 0) vf_harness_fail("subscribe");
 	}
-	for (int i = 0; i < d->npub; i++) det_connect(d, i);
-	if (!d->sentinel) {
+	for (int i = 0; i < d->npub; i++) {
+		if (!det_connect(d, i)) break;
+	}
+	if (!d->sentinel && !d->failed) {
 		// remove the bootstrap subscription again; this also purges
 		if (nng_sub0_socket_unsubscribe(d->sub, "", 0) != 0) vf_harness_fail("unsubscribe");
 		nng_msg *m;
@@ -1341,7 +1387,7 @@ conc_case(long idx)
 		int e = atomic_load(&c->pub_err[i]);
 		if (e != 0) {
 			char key[96];
-			snprintf(key, sizeof(key), "C05/pub-send/%s", nng_strerror(e));
+			snprintf(key, sizeof(key), "C05/pub-send/%s", ename(e));
 			vf_violation(key, "concurrent publisher %d: nng_sendmsg returned %s", i, nng_strerror(e));
 		}
 	}
@@ -1470,7 +1516,7 @@ noblock_case(long idx)
 		if (rv != 0) {
 			char key[128];
 			nng_msg_free(m);
-			snprintf(key, sizeof(key), "C05/pub-blocks/%s%s/sendbuf-%d", nng_strerror(rv), flags ? "-nonblock" : "", sendbuf);
+			snprintf(key, sizeof(key), "C05/pub-blocks/%s%s/sendbuf-%d", ename(rv), flags ? "-nonblock" : "", sendbuf);
 			vf_violation(key,
 			    "nng_sendmsg #%ld on PUB (SENDBUF %d, %d raw TCP subscribers that never read, %ld queue overflows so far) returned %s after %llu ms",
 			    i, sendbuf, nfd, discards, nng_strerror(rv), (unsigned long long) (dt / 1000000));
@@ -1484,7 +1530,7 @@ noblock_case(long idx)
 			if (discards >= 200 * nfd && after_stuck >= 300) break;
 		}
 		if ((size_t) sends * msz > budget) break;
-		if ((i & 255) == 0) vf_watchdog(60);
+		if ((i & 63) == 0) vf_watchdog(40);
 	}
 	discards = sock_stat(pub, "tx_discard");
 	vf_stat("noblock_sends", sends);
@@ -1535,5 +1581,6 @@ main(int argc, char **argv)
 		}
 	}
 	vf_nng_fini("C05");
+	if (premature_timeouts) vf_stat("premature_aio_timeouts_tolerated", premature_timeouts);
 	return vf_finish();
 }
